@@ -75,6 +75,7 @@ structure State (α : Type) where
   /-- non-empty responses in arrival order -/
   responses : List (List α)
   status : Status
+  deriving DecidableEq
 
 variable {α : Type}
 
